@@ -10,7 +10,7 @@ def _ctx_phase(m, st):
     out = []
     for a, v in st.mem.items():
         if a[0] in ("box", "ctx") and v[0] == "adt" and v[1] == "context::Context":
-            ph = v[3][m.ctx_fields.index("phase")]
+            ph = v[3][m.ctx_index("phase")]
             out.append(gcmodel.phase_name(m.prog, ph))
     return out
 
